@@ -350,11 +350,16 @@ impl EigenTrustEngine {
         }
 
         // Apply multi-factor trust adjustments
+        // A node without statistics gets the factor of an empty record (neutral response
+        // rate, no contributions), not an implicit 1.0: otherwise the first report about a
+        // peer - even a success - multiplies its score by <= 0.4 relative to unreported peers.
+        let neutral_factor = self.compute_multi_factor_adjustment(&NodeStatistics::default());
         for (node, trust) in trust_vector.iter_mut() {
-            if let Some(stats) = node_stats.get(node) {
-                let factor = self.compute_multi_factor_adjustment(stats);
-                *trust *= factor;
-            }
+            let factor = match node_stats.get(node) {
+                Some(stats) => self.compute_multi_factor_adjustment(stats),
+                None => neutral_factor,
+            };
+            *trust *= factor;
         }
 
         // Apply time decay
